@@ -1,7 +1,7 @@
 (* C08 — load_total: the loader model never returns LFault (a dereference outside a checked
    range) nor LErr EInternal (an internal_error of the library), for ALL inputs. *)
 From Coq Require Import List NArith ZArith Bool Lia ZifyBool ZifyNat ZifyN.
-From LTV Require Import Common.Bytes Params_gen.
+From LTV Require Import Common.Bytes.
 From LTV.C07 Require Import Model.
 From LTV.C08 Require Import Model ProofsOrder ProofsLoad.
 Import ListNotations.
@@ -167,44 +167,43 @@ Lemma skipn_len : forall (A : Type) n (l : list A), (length (skipn n l) <= lengt
 Proof. intros. rewrite skipn_length. lia. Qed.
 
 (* fuel sufficiency: every round consumes at least the '=' *)
-Lemma magnet_loop_nb : forall fuel pos hash tr, (length pos < fuel)%nat ->
-  is_bad (magnet_loop fuel pos hash tr) = false.
+Lemma magnet_loop_nb : forall rf fuel pos hash tr, (length pos < fuel)%nat ->
+  is_bad (magnet_loop rf fuel pos hash tr) = false.
 Proof.
-  induction fuel as [|f IH]; intros pos hash tr Hf; [lia|].
+  intro rf. induction fuel as [|f IH]; intros pos hash tr Hf; [lia|].
   cbn [magnet_loop]. destruct pos as [|c0 pos0] eqn:Epos; [reflexivity|]. rewrite <- Epos in *. clear Epos c0 pos0.
   destruct (span_eq pos []) as [tag rest] eqn:Es. cbv beta iota zeta.
   pose proof (span_eq_len _ _ _ _ Es) as Lr.
   destruct rest as [|e pos1]; [reflexivity|]. cbn [length] in Lr.
   assert (L1 : (length pos1 < f)%nat) by lia.
-  destruct (bytes_eqb tag tag_xt) eqn:Ext; cbv beta iota zeta.
-  - destruct ((N.of_nat (length pos1) <? 9) || negb (bytes_eqb (firstn 9 pos1) urn_btih)); [reflexivity|].
-    cbn [bind].
-    pose proof (skipn_len _ 9 pos1) as L2.
-    destruct (parse_base32_sha1 (skipn 9 pos1)) as [[h next]|] eqn:Eb.
-    + apply IH. apply b32_loop_len in Eb. lia.
-    + destruct (url_decode_ok (length (skipn 9 pos1)) (skipn 9 pos1) [] (le_n _)) as [A B].
-      apply bind_nb; [exact A|]. intros [decoded next] Eu. apply B in Eu.
-      destruct (N.of_nat (length decoded) =? hash_size); [apply IH; lia|].
+  match goal with |- is_bad (if ?c then _ else _) = false => destruct c end; [reflexivity|].
+  pose proof (skipn_len _ 9 pos1) as L2.
+  set (is_ih := bytes_eqb tag tag_xt && negb ((N.of_nat (length pos1) <? 9) || negb (bytes_eqb (firstn 9 pos1) urn_btih))).
+  set (pos2 := if is_ih then skipn 9 pos1 else pos1).
+  assert (Lp : (length pos2 <= length pos1)%nat) by (unfold pos2; destruct is_ih; lia).
+  destruct (if is_ih then parse_base32_sha1 pos2 else None) as [[h next]|] eqn:Eb.
+  - apply IH. destruct is_ih; [|discriminate]. apply b32_loop_len in Eb. lia.
+  - destruct (url_decode_ok (length pos2) pos2 [] (le_n _)) as [A B].
+    apply bind_nb; [exact A|]. intros [decoded next] Eu. apply B in Eu.
+    destruct is_ih.
+    + destruct (N.of_nat (length decoded) =? hash_size); [apply IH; lia|].
       destruct (N.of_nat (length decoded) =? 2 * hash_size); [|reflexivity].
       destruct (from_hex decoded); [apply IH; lia|reflexivity].
-  - cbn [bind].
-    destruct (url_decode_ok (length pos1) pos1 [] (le_n _)) as [A B].
-    apply bind_nb; [exact A|]. intros [decoded next] Eu. apply B in Eu.
-    destruct (bytes_eqb tag tag_tr); apply IH; lia.
+    + destruct (bytes_eqb tag tag_tr); apply IH; lia.
 Qed.
 
-Lemma parse_magnet_hash_nb : forall uri, is_bad (parse_magnet_hash uri) = false.
+Lemma parse_magnet_hash_nb : forall rf uri, is_bad (parse_magnet_hash rf uri) = false.
 Proof.
-  intro uri. unfold parse_magnet_hash.
+  intros rf uri. unfold parse_magnet_hash.
   destruct (negb (bytes_eqb (firstn 8 uri) magnet_prefix)); [reflexivity|].
   apply bind_nb.
   - apply magnet_loop_nb. pose proof (skipn_len _ 8 uri). lia.
   - intros [h t] _. simpl. destruct h; reflexivity.
 Qed.
 
-Lemma parse_magnet_uri_nb : forall m uri, is_bad (parse_magnet_uri m uri) = false.
+Lemma parse_magnet_uri_nb : forall rf m uri, is_bad (parse_magnet_uri rf m uri) = false.
 Proof.
-  intros m uri. unfold parse_magnet_uri.
+  intros rf m uri. unfold parse_magnet_uri.
   apply bind_nb; [apply parse_magnet_hash_nb|]. intros [h trackers] _.
   destruct trackers; reflexivity.
 Qed.
@@ -215,19 +214,18 @@ Global Hint Resolve parse_magnet_uri_nb parse_tracker_nb : c08nb.
 
 (* ------------------------------------------------------------ the loader *)
 
-Lemma piece_length_cs_nonzero : forall pl,
-  (pl <=? Z.of_N piece_length_min)%Z || (pl >? Z.of_N piece_length_max)%Z = false ->
+Lemma piece_length_cs_nonzero : forall pol pl, policy_ok pol = true ->
+  (pl <=? Z.of_N (pl_min pol))%Z || (pl >? Z.of_N (pl_max pol))%Z = false ->
   u32 (Z.to_N pl) <> 0.
 Proof.
-  intros pl H. apply orb_false_iff in H. destruct H as [H1 H2].
-  unfold piece_length_min, piece_length_max in *.
-  change Params.c08_piece_length_min with 1024 in H1. change Params.c08_piece_length_max with 536870912 in H2.
-  unfold u32. rewrite N.mod_small; unfold two32; lia.
+  intros pol pl Hp H. apply orb_false_iff in H. destruct H as [H1 H2].
+  unfold policy_ok in Hp. apply N.ltb_lt in Hp.
+  unfold u32. rewrite N.mod_small; unfold two32 in *; lia.
 Qed.
 
-Theorem load_total : forall (H : bytes -> bytes) b u, is_bad (load H b u) = false.
+Theorem load_total : forall (H : bytes -> bytes) pol b u, policy_ok pol = true -> is_bad (load H pol b u) = false.
 Proof.
-  intros H b u. unfold load.
+  intros H pol b u Hpol. unfold load.
   apply bind_nb; [auto with c08nb|]. intros m0 _.
   apply bind_nb.
   { destruct (negb (has_key_map m0 k_info) && has_key_string m0 k_magnet) eqn:E; [|reflexivity].
@@ -255,7 +253,7 @@ Proof.
   assert (Hcs : cs <> 0).
   { match type of Est with (if ?c then _ else _) = _ => destruct c end.
     - inv_all Est. inversion Est; subst. discriminate.
-    - inv_all Est. inversion Est; subst. apply piece_length_cs_nonzero. assumption. }
+    - inv_all Est. inversion Est; subst. eapply piece_length_cs_nonzero; [exact Hpol | assumption]. }
   apply bind_nb.
   { destruct (has_key im k_length).
     - apply bind_nb; [apply parse_single_file_nb; exact Hcs|]. intros; reflexivity.
@@ -273,9 +271,9 @@ Proof.
 Qed.
 
 (* in words *)
-Corollary load_total_cases : forall (H : bytes -> bytes) b u,
-  (exists d, load H b u = LOk d) \/ load H b u = LErr EInput \/ load H b u = LErr EBencode.
+Corollary load_total_cases : forall (H : bytes -> bytes) pol b u, policy_ok pol = true ->
+  (exists d, load H pol b u = LOk d) \/ load H pol b u = LErr EInput \/ load H pol b u = LErr EBencode.
 Proof.
-  intros H b u. pose proof (load_total H b u) as T.
-  destruct (load H b u) as [d|[]|]; simpl in T; try discriminate; eauto.
+  intros H pol b u Hpol. pose proof (load_total H pol b u Hpol) as T.
+  destruct (load H pol b u) as [d|[]|]; simpl in T; try discriminate; eauto.
 Qed.
